@@ -121,4 +121,20 @@ theorem src_compactOutputName_expected : src_compactOutputName = "_, seq := file
 
 theorem levelMinGroupFiles_expected : levelMinGroupFiles = "[CompactLevels]int{8, 4, 4, 4, 4, 4, 2}" := by rfl
 
+/-! ### column-store compaction: the output is published before the log exists (model: OG.C03.ColStore) -/
+
+theorem calls_csReplaceFiles_expected : calls_csReplaceFiles = ["writeCompactedFileInfo", "RenameIndexFiles", "Remove", "deleteFiles", "Remove"] := by rfl
+
+theorem calls_WriteIntoFile_expected : calls_WriteIntoFile = ["NewTSSPFile", "RenameTmpFiles", "RenameTmpFilesWithPKIndex", "RenameTmpFullTextIdxFile"] := by rfl
+
+theorem calls_csFlushByRow_expected : calls_csFlushByRow = ["WriteIntoFile", "AddTSSPFiles"] := by rfl
+
+theorem calls_csFlushByBlock_expected : calls_csFlushByBlock = ["WriteIntoFile", "AddTSSPFiles"] := by rfl
+
+theorem calls_csCompactToLevel_expected : calls_csCompactToLevel = ["compact", "ReplaceFiles"] := by rfl
+
+/-- recorded as finding `colstore_compaction_publishes_before_log`; when this turns false the
+negation `cs_crash_atomic_asWritten_fails` no longer describes the code. -/
+theorem csCompactPublishesBeforeLog_expected : csCompactPublishesBeforeLog = true := by rfl
+
 end OG.C03.Facts
